@@ -558,7 +558,24 @@ ROUNDTRIP = [
     # parentheses that the precedence of `**`, unary minus and ranges makes necessary
     'from t\nderive {neg_sq = -(d ** 2), decay = -(2 ** s) + o, p = (-d) ** 2}\n',
     'from t\nfilter (a | in (2 ** 3)..50)\nderive {m = (a + b) * c, n = a - (b - c), q = a / (b * c)}\n',
+    'from t\nderive {v1 = a - (b + c), v2 = a / (b * c), v3 = a % (b * c), v4 = a + (b + c), v5 = a ?? (b ?? c)}\n',
 ]
+
+# the documented precedence table (statement of C02): an expression without parentheses means the tree on the right
+PRECEDENCE = [
+    ("a && b ?? c", "a && (b ?? c)"), ("a ?? b && c", "(a ?? b) && c"), ("a || b && c", "a || (b && c)"), ("a == b ?? c", "(a == b) ?? c"), ("a + b * c", "a + (b * c)"),
+    ("a * b ** c", "a * (b ** c)"), ("a ** b ** c", "a ** (b ** c)"), ("a - b - c", "(a - b) - c"), ("a < b + c", "a < (b + c)"), ("a && b == c", "a && (b == c)"),
+    ("a ?? b + c", "a ?? (b + c)"), ("-a ** b", "(-a) ** b"),
+]
+
+
+def _precedence(bare, tree):
+    import replaylib
+    p1 = "from t\nderive {v = %s}\n" % bare
+    p2 = "from t\nderive {v = %s}\n" % tree
+    ok1, s1 = replaylib.compile_prql(p1, "sql.sqlite")
+    ok2, s2 = replaylib.compile_prql(p2, "sql.sqlite")
+    return {"input": p1, "expected": "the SQL of `%s`: %s" % (tree, s2[:200]), "observed": s1[:200], "failing": not (ok1 and ok2 and s1 == s2), "replay_kind": "precedence", "bare": bare, "tree": tree}
 
 
 def _roundtrip(src):
@@ -575,6 +592,11 @@ def _roundtrip(src):
 
 
 def replay(failure):
+    if ".PP1" in failure.get("obligation", "") or ".FP1" in failure.get("obligation", ""):
+        for bare, tree in PRECEDENCE:
+            r = _precedence(bare, tree)
+            if r["failing"]:
+                return r
     for src in ROUNDTRIP:
         r = _roundtrip(src)
         if r["failing"]:
@@ -583,4 +605,6 @@ def replay(failure):
 
 
 def rerun(doc):
+    if doc.get("replay_kind") == "precedence":
+        return _precedence(doc["bare"], doc["tree"])
     return _roundtrip(doc["input"])
